@@ -73,6 +73,10 @@ BENIGN = [
     ('b04-min-element-other-shuffles', 'src/f32/sse2/vec3a.rs', 'let v = _mm_min_ps(v, _mm_shuffle_ps(v, v, 0b01_01_10_10));\n            let v = _mm_min_ps(v, _mm_shuffle_ps(v, v, 0b00_00_00_01));', 'let v = _mm_min_ps(v, _mm_shuffle_ps(v, v, 0b00_00_00_01));\n            let v = _mm_min_ps(v, _mm_shuffle_ps(self.0, self.0, 0b10_10_10_10));', ['C01', 'C08', 'C07'], 'min_element folds the lanes in another (still hidden-lane-free) order'),
     ('b05-element-sum-order', 'src/f32/vec3.rs', 'self.x + self.y + self.z\n    }', 'self.z + self.y + self.x\n    }', ['C02', 'C01', 'C07'], 'element_sum in another order'),
     ('b06-write-to-slice-explicit', 'src/f32/vec3.rs', 'slice[..3].copy_from_slice(&self.to_array());', 'assert!(slice.len() >= 3);\n        slice[0] = self.x;\n        slice[1] = self.y;\n        slice[2] = self.z;', ['C17', 'C18', 'C14'], 'write_to_slice with an explicit length assert and element stores'),
+    ('b11-dquat-rotate-towards-max-min', 'src/f64/dquat.rs', 'let s = (max_angle / angle).clamp(-1.0, 1.0);', 'let s = (max_angle / angle).max(-1.0).min(1.0);', ['C12', 'C18', 'C20'], 'clamp written as max().min()'),
+    ('b12-mat3-write-cols-assert-then-store', 'src/f32/mat3.rs', 'slice[..9].copy_from_slice(&self.to_cols_array());', 'assert!(slice.len() >= 9);\n        let a = self.to_cols_array();\n        for i in 0..9 {\n            slice[i] = a[i];\n        }', ['C18', 'C06', 'C17'], 'write_cols_to_slice as a checked loop'),
+    ('b13-dquat-arc-comparison-flipped-text', 'src/f64/dquat.rs', 'if dot > ONE_MINUS_EPS {\n            // 0° singularity: from ≈ to\n            Self::IDENTITY\n        } else if dot < -ONE_MINUS_EPS {\n            // 180° singularity: from ≈ -to\n            use core::f64::consts::PI;', 'if ONE_MINUS_EPS < dot {\n            // 0° singularity: from ≈ to\n            Self::IDENTITY\n        } else if -ONE_MINUS_EPS > dot {\n            // 180° singularity: from ≈ -to\n            use core::f64::consts::PI;', ['C12', 'C20'], 'comparisons written the other way round'),
+    ('b14-vec3-sum-closure-operator', 'src/f32/vec3.rs', 'iter.fold(Self::ZERO, |a, &b| Self::add(a, b))', 'iter.fold(Self::ZERO, |a, &b| a + b)', ['C01', 'C18'], 'Sum closure written with the + operator'),
     ('b08-is-normalized-rewritten', 'src/f32/vec3.rs', 'math::abs(self.length_squared() - 1.0) <= 2e-4', '(self.length_squared() - 1.0).abs() <= 2e-4', ['C20', 'C02', 'C07'], 'is_normalized through the inherent abs'),
     ('b09-cross-operand-order', 'src/f32/vec3.rs', 'x: self.y * rhs.z - rhs.y * self.z,', 'x: self.y * rhs.z - self.z * rhs.y,', ['C02', 'C03', 'C07', 'C11'], 'commuted product inside cross'),
 ]
